@@ -6,7 +6,7 @@ from ..model import UNKNOWN, ClassRef, FuncRef, norm, walk_no_nested
 from ..layout import LayoutEngine, fmt_info, split_fmt, fmt_str
 from ..resolve import Resolver
 from ..escape import Escape, rule_entry
-from ..rules import canon_guard
+from ..rules import canon_guard, canon_text, equiv, equiv_folded
 from .. import common, spec, flow, shape
 from . import c16
 
@@ -50,7 +50,7 @@ def rule_pow(ctx, repo, eng):
         t = norm(s)
         if t.startswith('%s = uint256_from_str' % hv):
             idx['conv'] = k
-        if isinstance(s, ast.If) and canon_guard(s.test, repo, fi.module) == '%s > target' % hv:
+        if isinstance(s, ast.If) and canon_guard(s.test, repo, fi.module) == canon_text('%s > target' % hv):
             idx['cmp'] = k
     r.check(idx.get('conv', 99) < idx.get('cmp', -1), 'order', fi.site, 'hash converted before the comparison', 'the hash is compared before it is converted to an integer')
     base = repo.get_class(CORE + 'ValidationError')
